@@ -177,6 +177,14 @@ theorem toQ_mk (p : Nat) (c : Prop) [Decidable c] (e : Int) (l : List Nat) :
       have h2 : -(l.length : Int) < 0 := by omega
       rw [if_pos h2]
 
+theorem toQ_mk_neg (p : Nat) (c : Prop) [Decidable c] (e : Int) (l : List Nat) :
+    toQ ⟨p, if c then -(l.length : Int) else (l.length : Int), e, l⟩ =
+      (if c then -1 else 1) * (val l : ℚ) * (B : ℚ) ^ (e - (l.length : ℤ)) := by
+  have := toQ_mk p (¬ c) e l
+  by_cases hc : c
+  · simp only [hc, not_true_eq_false, if_false, if_true] at this ⊢; exact this
+  · simp only [hc, not_false_eq_true, if_false, if_true] at this ⊢; exact this
+
 theorem toQ_zero (p : Nat) : toQ (zero p) = 0 := by simp [toQ, zero]
 
 theorem toQ_of_size_zero {f : F} (h : f.d = []) : toQ f = 0 := by simp [toQ, h]
@@ -293,6 +301,14 @@ theorem WF_mk {p : Nat} {c : Prop} [Decidable c] {e : Int} {l : List Nat}
       · rw [if_pos hc] at h; omega
       · rw [if_neg hc] at h; omega
     exact List.eq_nil_of_length_eq_zero h0
+
+theorem WF_mk_neg {p : Nat} {c : Prop} [Decidable c] {e : Int} {l : List Nat}
+    (hl : Limbs l) (ht : l.getLast? ≠ some 0) (hn : l.length ≤ p + 1) (hz : l = [] → e = 0) :
+    WF ⟨p, if c then -(l.length : Int) else (l.length : Int), e, l⟩ := by
+  have := @WF_mk p (¬ c) _ e l hl ht hn hz
+  by_cases hc : c
+  · simp only [hc, not_true_eq_false, if_false, if_true] at this ⊢; exact this
+  · simp only [hc, not_false_eq_true, if_false, if_true] at this ⊢; exact this
 
 theorem WF_zero (p : Nat) : WF (zero p) := by
   refine ⟨Limbs_nil, rfl, by simp [zero], by simp [zero], fun _ => rfl⟩
@@ -445,5 +461,352 @@ theorem ceil_nat_add (I : ℕ) (f : ℚ) (h0 : 0 ≤ f) (h1 : f < 1) :
   · rw [if_pos hf, Int.ceil_eq_iff]; push_cast
     have : 0 < f := lt_of_le_of_ne h0 (Ne.symm hf)
     constructor <;> linarith
+
+/-! ### multiplication -/
+
+theorem val_take_of_top_zero (l : List Nat) (n : Nat) (h : l.length = n + 1) (h0 : topLimb l = 0) :
+    val (l.take n) = val l := by
+  rw [val_take_top l n h, h0]; simp
+
+theorem mulLimbs_spec (prec : Nat) (up vp : List Nat)
+    (hlu : Limbs up) (hnu : up ≠ []) (htu : up.getLast? ≠ some 0)
+    (hlv : Limbs vp) (hnv : vp ≠ []) (htv : vp.getLast? ≠ some 0) :
+    Limbs (mulLimbs prec up vp).1 ∧ (mulLimbs prec up vp).1.getLast? ≠ some 0 ∧
+    (mulLimbs prec up vp).1 ≠ [] ∧ (mulLimbs prec up vp).2 ≤ 1 ∧
+    (mulLimbs prec up vp).1.length = min (prec + 1) (up.length + vp.length - (mulLimbs prec up vp).2) ∧
+    B ^ (up.length + vp.length - (mulLimbs prec up vp).2 - 1) ≤ val up * val vp ∧
+    val up * val vp < B ^ (up.length + vp.length - (mulLimbs prec up vp).2) ∧
+    ∃ lo, val up * val vp = lo + B ^ (up.length + vp.length - (mulLimbs prec up vp).2 - (mulLimbs prec up vp).1.length)
+            * val (mulLimbs prec up vp).1 ∧
+          lo < B ^ (up.length + vp.length - (mulLimbs prec up vp).2 - (mulLimbs prec up vp).1.length) := by
+  have ha : 0 < up.length := List.length_pos_of_ne_nil hnu
+  have hb : 0 < vp.length := List.length_pos_of_ne_nil hnv
+  have hU1 := val_ge_of_top up hnu htu
+  have hV1 := val_ge_of_top vp hnv htv
+  have hU2 := val_lt up hlu
+  have hV2 := val_lt vp hlv
+  have hPlt : val up * val vp < B ^ (up.length + vp.length) := by
+    rw [pow_add]; exact Nat.mul_lt_mul'' hU2 hV2
+  have hPge : B ^ (up.length + vp.length - 2) ≤ val up * val vp := by
+    have : up.length + vp.length - 2 = (up.length - 1) + (vp.length - 1) := by omega
+    rw [this, pow_add]; exact Nat.mul_le_mul hU1 hV1
+  have hv := val_toLimbs_of_lt hPlt
+  have hlen := toLimbs_length (up.length + vp.length) (val up * val vp)
+  have hlim := Limbs_toLimbs (up.length + vp.length) (val up * val vp)
+  unfold mulLimbs
+  simp only
+  generalize toLimbs (up.length + vp.length) (val up * val vp) = tp at *
+  generalize hP : val up * val vp = P at *
+  -- the normalised product tp1
+  have key : ∀ (adj : Nat) (tp1 : List Nat), adj ≤ 1 → Limbs tp1 → tp1.length = up.length + vp.length - adj →
+      val tp1 = P → B ^ (up.length + vp.length - adj - 1) ≤ P →
+      Limbs (top (prec + 1) tp1) ∧ (top (prec + 1) tp1).getLast? ≠ some 0 ∧ top (prec + 1) tp1 ≠ [] ∧ adj ≤ 1 ∧
+      (top (prec + 1) tp1).length = min (prec + 1) (up.length + vp.length - adj) ∧
+      B ^ (up.length + vp.length - adj - 1) ≤ P ∧ P < B ^ (up.length + vp.length - adj) ∧
+      ∃ lo, P = lo + B ^ (up.length + vp.length - adj - (top (prec + 1) tp1).length) * val (top (prec + 1) tp1) ∧
+        lo < B ^ (up.length + vp.length - adj - (top (prec + 1) tp1).length) := by
+    intro adj tp1 hadj hl1 hlen1 hval1 hge1
+    have hne1 : tp1 ≠ [] := by intro h; rw [h] at hlen1; simp at hlen1; omega
+    have htop1 : tp1.getLast? ≠ some 0 := top_ne_zero_of_val_ge tp1 hl1 hne1 (by rw [hlen1, hval1]; exact hge1)
+    have htl : (top (prec + 1) tp1).length = min (prec + 1) (up.length + vp.length - adj) := by
+      rw [top_length, hlen1]
+    have hup1 : P < B ^ (up.length + vp.length - adj) := by rw [← hval1, ← hlen1]; exact val_lt tp1 hl1
+    refine ⟨Limbs_top hl1 _, by rw [getLast?_top (by omega)]; exact htop1, ?_, hadj, htl, hge1, hup1, ?_⟩
+    · intro h; rw [h] at htl; simp at htl; omega
+    · have hk : up.length + vp.length - adj - (top (prec + 1) tp1).length = tp1.length - (prec + 1) := by
+        rw [htl, hlen1]; omega
+      rw [hk]
+      refine ⟨val (tp1.take (tp1.length - (prec + 1))), ?_, val_take_lt hl1 _⟩
+      rw [← hval1]; exact val_top (prec + 1) tp1
+  by_cases h0 : topLimb tp = 0
+  · simp only [h0, if_true]
+    have hl' : tp.length = (up.length + vp.length - 1) + 1 := by omega
+    have hvt := val_take_of_top_zero tp _ hl' h0
+    have hsplit := val_take_top tp _ hl'
+    apply key 1 _ (le_refl _) (Limbs_take hlim _)
+    · rw [List.length_take, hlen]; omega
+    · rw [hvt, hv]
+    · rw [show up.length + vp.length - 1 - 1 = up.length + vp.length - 2 by omega]; exact hPge
+  · simp only [h0, if_false, Nat.sub_zero]
+    have htk : tp.take (up.length + vp.length) = tp := List.take_of_length_le (by omega)
+    rw [htk]
+    have hl' : tp.length = (up.length + vp.length - 1) + 1 := by omega
+    have hsplit := val_take_top tp _ hl'
+    apply key 0 _ (by omega) hlim (by omega) hv
+    rw [Nat.sub_zero, ← hv, hsplit]
+    have : 1 ≤ topLimb tp := Nat.one_le_iff_ne_zero.mpr h0
+    nlinarith [Bpow_pos (up.length + vp.length - 1)]
+
+
+/-- the integer inequality behind `mpf_mul_err`:  E = exact product of the full operands,
+    R = kept limbs, all over a common scale. Q = B^(prec-1) = 2^p. -/
+theorem mul_core (U' V' lou lov lo Bku Bkv Bk rpv Q : ℕ)
+    (hQ : B ≤ Q)
+    (hP : U' * V' = lo + Bk * rpv)
+    (hlou : lou < Bku) (hlov : lov < Bkv) (hlo : lo < Bk)
+    (hu : Bku = 1 ∨ Q ≤ U') (hv : Bkv = 1 ∨ Q ≤ V') (hk : Bk = 1 ∨ Bk * Q * B ≤ U' * V')
+    (hU : 1 ≤ U') (hV : 1 ≤ V') :
+    rpv * Bk * Bku * Bkv ≤ (lou + Bku * U') * (lov + Bkv * V') ∧
+    ((lou + Bku * U') * (lov + Bkv * V') - rpv * Bk * Bku * Bkv) * Q
+      < 4 * ((lou + Bku * U') * (lov + Bkv * V')) := by
+  have hB := B_ge_two
+  have hE : (lou + Bku * U') * (lov + Bkv * V') =
+      rpv * Bk * Bku * Bkv + (lou * lov + lou * Bkv * V' + lov * Bku * U' + lo * Bku * Bkv) := by
+    have : Bku * U' * (Bkv * V') = Bku * Bkv * (U' * V') := by ring
+    calc (lou + Bku * U') * (lov + Bkv * V')
+        = lou * lov + lou * Bkv * V' + lov * Bku * U' + Bku * Bkv * (U' * V') := by ring
+      _ = _ := by rw [hP]; ring
+  refine ⟨by rw [hE]; exact Nat.le_add_right _ _, ?_⟩
+  rw [hE, Nat.add_sub_cancel_left]
+  set W := Bku * Bkv * U' * V' with hW
+  have hWpos : 0 < W := by
+    have : 0 < Bku := by omega
+    have : 0 < Bkv := by omega
+    positivity
+  have hWE : W ≤ rpv * Bk * Bku * Bkv + (lou * lov + lou * Bkv * V' + lov * Bku * U' + lo * Bku * Bkv) := by
+    rw [← hE, hW]; nlinarith [Nat.zero_le (lou * lov), Nat.zero_le (lou * Bkv * V'), Nat.zero_le (lov * Bku * U')]
+  have t1 : lou * Bkv * V' * Q ≤ W := by
+    rcases hu with h | h
+    · have : lou = 0 := by omega
+      rw [this]; simp
+    · have : lou * Q ≤ Bku * U' := Nat.mul_le_mul (le_of_lt hlou) h
+      calc lou * Bkv * V' * Q = (lou * Q) * (Bkv * V') := by ring
+        _ ≤ (Bku * U') * (Bkv * V') := Nat.mul_le_mul_right _ this
+        _ = W := by rw [hW]; ring
+  have t2 : lov * Bku * U' * Q ≤ W := by
+    rcases hv with h | h
+    · have : lov = 0 := by omega
+      rw [this]; simp
+    · have : lov * Q ≤ Bkv * V' := Nat.mul_le_mul (le_of_lt hlov) h
+      calc lov * Bku * U' * Q = (lov * Q) * (Bku * U') := by ring
+        _ ≤ (Bkv * V') * (Bku * U') := Nat.mul_le_mul_right _ this
+        _ = W := by rw [hW]; ring
+  have t3 : lo * Bku * Bkv * Q * B ≤ W := by
+    rcases hk with h | h
+    · have : lo = 0 := by omega
+      rw [this]; simp
+    · have : lo * Q * B ≤ U' * V' := le_trans (Nat.mul_le_mul_right _ (Nat.mul_le_mul_right _ (le_of_lt hlo))) h
+      calc lo * Bku * Bkv * Q * B = (lo * Q * B) * (Bku * Bkv) := by ring
+        _ ≤ (U' * V') * (Bku * Bkv) := Nat.mul_le_mul_right _ this
+        _ = W := by rw [hW]; ring
+  have t4 : lou * lov * Q * B ≤ W := by
+    rcases hu with h | h
+    · have : lou = 0 := by omega
+      rw [this]; simp
+    · rcases hv with h' | h'
+      · have : lov = 0 := by omega
+        rw [this]; simp
+      · have h1 : lou * lov ≤ Bku * Bkv := Nat.mul_le_mul (le_of_lt hlou) (le_of_lt hlov)
+        have h2 : Q * B ≤ U' * V' := Nat.mul_le_mul h (le_trans hQ h')
+        calc lou * lov * Q * B = (lou * lov) * (Q * B) := by ring
+          _ ≤ (Bku * Bkv) * (U' * V') := Nat.mul_le_mul h1 h2
+          _ = W := by rw [hW]; ring
+  have hsum : (lou * lov + lou * Bkv * V' + lov * Bku * U' + lo * Bku * Bkv) * Q * B ≤ W * (2 * B + 2) := by
+    have e : (lou * lov + lou * Bkv * V' + lov * Bku * U' + lo * Bku * Bkv) * Q * B
+        = lou * lov * Q * B + (lou * Bkv * V' * Q) * B + (lov * Bku * U' * Q) * B + lo * Bku * Bkv * Q * B := by ring
+    rw [e]
+    have := Nat.mul_le_mul_right B t1
+    have := Nat.mul_le_mul_right B t2
+    nlinarith
+  have hlt : W * (2 * B + 2) < 4 * W * B := by nlinarith
+  have : (lou * lov + lou * Bkv * V' + lov * Bku * U' + lo * Bku * Bkv) * Q * B
+      < 4 * (rpv * Bk * Bku * Bkv + (lou * lov + lou * Bkv * V' + lov * Bku * U' + lo * Bku * Bkv)) * B := by
+    calc _ ≤ W * (2 * B + 2) := hsum
+      _ < 4 * W * B := hlt
+      _ ≤ _ := by
+        apply Nat.mul_le_mul_right
+        exact Nat.mul_le_mul_left 4 hWE
+  exact Nat.lt_of_mul_lt_mul_right this
+
+
+
+theorem top_facts (prec : Nat) (hp : 0 < prec) (d : List Nat) (hl : Limbs d) (hne : d ≠ []) (ht : d.getLast? ≠ some 0) :
+    Limbs (top prec d) ∧ top prec d ≠ [] ∧ (top prec d).getLast? ≠ some 0 ∧
+    (top prec d).length = min prec d.length ∧
+    val d = val (d.take (d.length - prec)) + B ^ (d.length - prec) * val (top prec d) ∧
+    val (d.take (d.length - prec)) < B ^ (d.length - prec) ∧
+    (B ^ (d.length - prec) = 1 ∨ B ^ (prec - 1) ≤ val (top prec d)) := by
+  have hn : 0 < d.length := List.length_pos_of_ne_nil hne
+  have hlen := top_length prec d
+  have hne' : top prec d ≠ [] := by intro h; rw [h] at hlen; simp at hlen; omega
+  have ht' : (top prec d).getLast? ≠ some 0 := by rw [getLast?_top hp]; exact ht
+  refine ⟨Limbs_top hl _, hne', ht', hlen, val_top prec d, val_take_lt hl _, ?_⟩
+  rcases le_or_gt d.length prec with h | h
+  · left; rw [Nat.sub_eq_zero_of_le h]; rfl
+  · right
+    have := val_ge_of_top _ hne' ht'
+    rw [hlen, Nat.min_eq_left (le_of_lt h)] at this; exact this
+
+theorem sg_mul (u v : F) :
+    (if ((decide (u.size < 0)) != (decide (v.size < 0))) = true then (-1 : ℚ) else 1) = sg u * sg v := by
+  unfold sg
+  by_cases a : u.size < 0 <;> by_cases b : v.size < 0 <;> simp [a, b]
+
+/-- everything the accuracy / exactness theorems need about `mul`, over a common scale `s`. -/
+theorem mul_decomp (prec : Nat) (u v : F) (hu : OpWF u) (hv : OpWF v) (hp : 2 ≤ prec)
+    (hu0 : u.size ≠ 0) (hv0 : v.size ≠ 0) :
+    WF (mul prec u v) ∧
+    ∃ (U' V' lou lov lo ku kv k rpv : ℕ) (z : ℤ),
+      toQ (mul prec u v) = sg u * sg v * ((rpv * B ^ k * B ^ ku * B ^ kv : ℕ) : ℚ) * (B : ℚ) ^ z ∧
+      toQ u * toQ v = sg u * sg v * (((lou + B ^ ku * U') * (lov + B ^ kv * V') : ℕ) : ℚ) * (B : ℚ) ^ z ∧
+      val u.d = lou + B ^ ku * U' ∧ val v.d = lov + B ^ kv * V' ∧
+      U' * V' = lo + B ^ k * rpv ∧ lou < B ^ ku ∧ lov < B ^ kv ∧ lo < B ^ k ∧
+      (B ^ ku = 1 ∨ B ^ (prec - 1) ≤ U') ∧ (B ^ kv = 1 ∨ B ^ (prec - 1) ≤ V') ∧
+      (B ^ k = 1 ∨ B ^ k * B ^ (prec - 1) * B ≤ U' * V') ∧ 1 ≤ U' ∧ 1 ≤ V' ∧
+      ku = u.d.length - prec ∧ kv = v.d.length - prec ∧
+      (∃ L, B ^ (L - 1) ≤ U' * V' ∧ k = L - (prec + 1)) := by
+  have hnu : u.d ≠ [] := by intro h; have := hu.2.1; rw [h] at this; simp at this; omega
+  have hnv : v.d ≠ [] := by intro h; have := hv.2.1; rw [h] at this; simp at this; omega
+  obtain ⟨a1, a2, a3, a4, a5, a6, a7⟩ := top_facts prec (by omega) u.d hu.1 hnu hu.2.2.1
+  obtain ⟨b1, b2, b3, b4, b5, b6, b7⟩ := top_facts prec (by omega) v.d hv.1 hnv hv.2.2.1
+  obtain ⟨m1, m2, m3, m4, m5, m6, m9, lo, m7, m8⟩ := mulLimbs_spec prec _ _ a1 a2 a3 b1 b2 b3
+  have hua : ¬ ((top prec u.d).length = 0 ∨ (top prec v.d).length = 0) := by
+    have := List.length_pos_of_ne_nil a2; have := List.length_pos_of_ne_nil b2; omega
+  have hPlt : val (top prec u.d) * val (top prec v.d) < B ^ ((top prec u.d).length + (top prec v.d).length) := by
+    rw [pow_add]; exact Nat.mul_lt_mul'' (val_lt _ a1) (val_lt _ b1)
+  unfold mul
+  simp only [hua, if_false]
+  generalize mulLimbs prec (top prec u.d) (top prec v.d) = r at *
+  obtain ⟨rp, adj⟩ := r
+  simp only at m1 m2 m3 m4 m5 m6 m7 m8 m9 ⊢
+  refine ⟨?_, ?_⟩
+  · exact WF_mk_neg m1 m2 (by rw [m5]; omega) (fun h => absurd h m3)
+  · set a := (top prec u.d).length with ha
+    set b := (top prec v.d).length with hb
+    refine ⟨val (top prec u.d), val (top prec v.d), val (u.d.take (u.d.length - prec)),
+      val (v.d.take (v.d.length - prec)), lo, u.d.length - prec, v.d.length - prec, a + b - adj - rp.length, val rp,
+      u.exp - (u.d.length : ℤ) + (v.exp - (v.d.length : ℤ)), ?_, ?_,
+      a5, b5, m7, a6, b6, m8, a7, b7, ?_, val_pos_of_top a2 a3, val_pos_of_top b2 b3, rfl, rfl, ?_⟩
+    · -- value of the result
+      rw [toQ_mk_neg, sg_mul]
+      have hle : rp.length ≤ a + b - adj := by rw [m5]; omega
+      have hle2 : adj ≤ a + b := by omega
+      have hau : a + (u.d.length - prec) = u.d.length := by omega
+      have hbv : b + (v.d.length - prec) = v.d.length := by omega
+      have e3 : u.exp + v.exp - (adj : ℤ) - (rp.length : ℤ) =
+          (((a + b - adj - rp.length) + (u.d.length - prec) + (v.d.length - prec) : ℕ) : ℤ)
+            + (u.exp - (u.d.length : ℤ) + (v.exp - (v.d.length : ℤ))) := by
+        omega
+      rw [e3, zpow_add₀ Bq_ne, zpow_natCast]
+      push_cast
+      rw [pow_add, pow_add]; ring
+    · rw [toQ_sg u, toQ_sg v, ← a5, ← b5, zpow_add₀ Bq_ne]; push_cast; ring
+    · -- the dropped part of the product is at most P / B^prec
+      rcases Nat.eq_zero_or_pos (a + b - adj - rp.length) with h | h
+      · left; rw [h]; rfl
+      · right
+        have hrl : rp.length = prec + 1 := by rw [m5]; omega
+        have : a + b - adj - 1 = (a + b - adj - rp.length) + (prec - 1) + 1 := by omega
+        rw [this, pow_add, pow_add, pow_one] at m6
+        exact m6
+    · exact ⟨a + b - adj, m6, by rw [m5]; omega⟩
+
+
+/-! ### representability in p bits -/
+
+/-- x is a dyadic rational whose significand needs at most p bits -/
+def Fits (x : ℚ) (p : ℕ) : Prop := ∃ (m : ℤ) (k : ℤ), x = m * (2 : ℚ) ^ k ∧ |m| < 2 ^ p
+
+/-- natural-number form -/
+def FitsN (N : ℕ) (p : ℕ) : Prop := ∃ m j : ℕ, N = m * 2 ^ j ∧ m < 2 ^ p
+
+theorem fitsN_of_mul_pow {N t p : ℕ} (h : FitsN (N * 2 ^ t) p) : FitsN N p := by
+  obtain ⟨m, j, hm, hp⟩ := h
+  rcases le_or_gt t j with hle | hgt
+  · refine ⟨m, j - t, ?_, hp⟩
+    have : m * 2 ^ j = m * 2 ^ (j - t) * 2 ^ t := by rw [mul_assoc, ← pow_add]; congr 2; omega
+    rw [this] at hm
+    exact Nat.eq_of_mul_eq_mul_right (Nat.two_pow_pos _) hm
+  · refine ⟨N, 0, by simp, ?_⟩
+    have : N * 2 ^ (t - j) * 2 ^ j = m * 2 ^ j := by rw [mul_assoc, ← pow_add, ← hm]; congr 2; omega
+    have h2 : N * 2 ^ (t - j) = m := Nat.eq_of_mul_eq_mul_right (Nat.two_pow_pos _) this
+    have : N ≤ N * 2 ^ (t - j) := Nat.le_mul_of_pos_right _ (Nat.two_pow_pos _)
+    omega
+
+theorem fitsN_of_fits {σ : ℚ} (hσ : σ = 1 ∨ σ = -1) (N : ℕ) (z : ℤ) (p : ℕ)
+    (h : Fits (σ * (N : ℚ) * (B : ℚ) ^ z) p) : FitsN N p := by
+  obtain ⟨m, k, hm, hp⟩ := h
+  -- |m| · 2^k = N · 2^(64 z)
+  have habs : (N : ℚ) * (2 : ℚ) ^ (64 * z) = (m.natAbs : ℚ) * (2 : ℚ) ^ k := by
+    have h1 : |σ * (N : ℚ) * (B : ℚ) ^ z| = (N : ℚ) * (2 : ℚ) ^ (64 * z) := by
+      have : (B : ℚ) ^ z = (2 : ℚ) ^ (64 * z) := by rw [Bq_eq, zpow_mul]; norm_num
+      rw [abs_mul, abs_mul, this]
+      rcases hσ with h | h <;> rw [h] <;> simp [abs_of_pos (zpow_pos (by norm_num : (0:ℚ) < 2) _)]
+    have h2 : |(m : ℚ) * (2 : ℚ) ^ k| = (m.natAbs : ℚ) * (2 : ℚ) ^ k := by
+      rw [abs_mul, abs_of_pos (zpow_pos (by norm_num : (0:ℚ) < 2) k)]
+      congr 1; rw [Nat.cast_natAbs]; push_cast; rfl
+    rw [← h1, hm, h2]
+  have hp' : m.natAbs < 2 ^ p := by
+    have : (m.natAbs : ℤ) < 2 ^ p := by rw [Int.natCast_natAbs]; exact hp
+    exact_mod_cast this
+  -- bring to naturals: N · 2^a = |m| · 2^b with a, b naturals
+  have two_ne : (2 : ℚ) ≠ 0 := by norm_num
+  rcases le_or_gt (64 * z) k with hle | hgt
+  · obtain ⟨j, hj⟩ : ∃ j : ℕ, k = 64 * z + j := ⟨(k - 64 * z).toNat, by omega⟩
+    rw [hj, zpow_add₀ two_ne, zpow_natCast] at habs
+    have hz : (2 : ℚ) ^ (64 * z) ≠ 0 := zpow_ne_zero _ two_ne
+    have : (N : ℚ) = (m.natAbs : ℚ) * 2 ^ j := by
+      have := habs; field_simp at this; linarith
+    exact ⟨m.natAbs, j, by exact_mod_cast this, hp'⟩
+  · obtain ⟨j, hj⟩ : ∃ j : ℕ, 64 * z = k + j := ⟨(64 * z - k).toNat, by omega⟩
+    rw [hj, zpow_add₀ two_ne, zpow_natCast] at habs
+    have hz : (2 : ℚ) ^ k ≠ 0 := zpow_ne_zero _ two_ne
+    have : (N : ℚ) * 2 ^ j = (m.natAbs : ℚ) := by
+      have := habs; field_simp at this; linarith
+    have hn : N * 2 ^ j = m.natAbs := by exact_mod_cast this
+    refine ⟨N, 0, by simp, ?_⟩
+    have : N ≤ N * 2 ^ j := Nat.le_mul_of_pos_right _ (Nat.two_pow_pos _)
+    omega
+
+/-- a number with n limbs (top limb non-zero) that fits in 64(prec-1) bits has its low n-prec limbs zero -/
+theorem fitsN_dvd {N n prec : ℕ} (h : FitsN N (64 * (prec - 1))) (hn : B ^ (n - 1) ≤ N) (hp : 1 ≤ prec) :
+    B ^ (n - prec) ∣ N := by
+  obtain ⟨m, j, hm, hmp⟩ := h
+  rcases Nat.eq_zero_or_pos (n - prec) with h0 | h0
+  · rw [h0]; simp
+  · have hlt : 2 ^ (64 * (n - 1)) < 2 ^ (64 * (prec - 1) + j) := by
+      have h1 : 2 ^ (64 * (n - 1)) ≤ N := by
+        have : B ^ (n - 1) = 2 ^ (64 * (n - 1)) := by unfold B; rw [← pow_mul]
+        rw [← this]; exact hn
+      have h2 : N < 2 ^ (64 * (prec - 1)) * 2 ^ j := by
+        rw [hm]; exact Nat.mul_lt_mul_of_pos_right hmp (Nat.two_pow_pos _)
+      rw [pow_add]; omega
+    have hj : 64 * (n - prec) ≤ j := by
+      have := (Nat.pow_lt_pow_iff_right (by norm_num : 1 < 2)).mp hlt
+      omega
+    have : B ^ (n - prec) = 2 ^ (64 * (n - prec)) := by unfold B; rw [← pow_mul]
+    rw [this, hm]
+    exact Dvd.dvd.mul_left (Nat.pow_dvd_pow 2 hj) m
+
+theorem low_zero_of_dvd {N lo hi K : ℕ} (h : N = lo + K * hi) (hlo : lo < K) (hd : K ∣ N) : lo = 0 := by
+  have : K ∣ lo := by
+    have h2 : K ∣ K * hi := Dvd.intro _ rfl
+    rw [h] at hd
+    exact (Nat.dvd_add_left h2).mp hd
+  exact Nat.eq_zero_of_dvd_of_lt this hlo
+
+
+theorem Bpow_eq_two_pow (prec : ℕ) : B ^ (prec - 1) = 2 ^ (PREC_TO_BITS prec) := by
+  unfold B PREC_TO_BITS; rw [← pow_mul]; congr 1; omega
+
+theorem sg_cases (u : F) : sg u = 1 ∨ sg u = -1 := by
+  unfold sg; by_cases h : u.size < 0 <;> simp [h]
+
+/-- from the integer inequality to the property's bound -/
+theorem err_of_nat (σ : ℚ) (hσ : σ = 1 ∨ σ = -1) (R E : ℕ) (s : ℚ) (hs : 0 < s) (prec : ℕ)
+    (hle : R ≤ E) (h : (E - R) * B ^ (prec - 1) < 4 * E) :
+    |σ * (R : ℚ) * s - σ * (E : ℚ) * s| < eps prec * |σ * (E : ℚ) * s| := by
+  have key := rel_err_scale (R : ℤ) (E : ℤ) s hs (PREC_TO_BITS prec) (by
+    have h1 : |(R : ℤ) - (E : ℤ)| = ((E - R : ℕ) : ℤ) := by
+      rw [abs_sub_comm, abs_of_nonneg (by omega)]; omega
+    rw [h1, abs_of_nonneg (by omega : (0 : ℤ) ≤ (E : ℤ))]
+    rw [Bpow_eq_two_pow] at h
+    exact_mod_cast h)
+  unfold eps
+  rcases hσ with h1 | h1 <;> rw [h1]
+  · simpa using key
+  · have e1 : (-1 : ℚ) * (R : ℚ) * s - -1 * (E : ℚ) * s = -((R : ℚ) * s - (E : ℚ) * s) := by ring
+    have e2 : (-1 : ℚ) * (E : ℚ) * s = -((E : ℚ) * s) := by ring
+    rw [e1, e2, abs_neg, abs_neg]; simpa using key
 
 end Mpir.Mpf
